@@ -399,3 +399,118 @@ def run_group(group, fsroot, repo):
             probe_ok = False
     nontrivial = sum(1 for k in w.files if stream_ref(w.data[kind_id(k)], group["feat"]) != w.data[kind_id(k)])
     return {"results": results, "probe_ok": probe_ok, "nontrivial_files": nontrivial, "gid": group["gid"]}
+
+
+# ---------------------------------------------------------------------------
+# isolation against the tree WITHOUT the failing files (distinct secrets per file)
+# ---------------------------------------------------------------------------
+ISO_SHAPES = {
+    # (directory below in/, base name, role); base names of failing files are unique and no substring of another name
+    "S1": [("", "a-first.cfg", "ok"), ("", "m-big.cfg", "fail"), ("", "z-last.cfg", "ok"),
+           ("sub dir", "inner.cfg", "ok"), ("sub dir/nést", "deep.cfg", "ok")],
+    "S2": [("", "top.cfg", "ok"), ("mid dir", "a-one.cfg", "ok"), ("mid dir", "k-big.cfg", "fail"),
+           ("mid dir", "z-two.cfg", "ok"), ("mid dir/deeper", "d-three.cfg", "ok"),
+           ("zz dir", "e-four.cfg", "ok"), ("aa dir", "f-five.cfg", "ok")],
+    "S3": [("", "r1.cfg", "ok"), ("", "r2-big.cfg", "fail"), ("d one", "x-big.cfg", "fail"),
+           ("d one", "y.cfg", "ok"), ("d two", "w.cfg", "ok")],
+    "S4": [("", "r.cfg", "ok"), ("a/b/c", "big-one.cfg", "fail"), ("a/b/c", "sib.cfg", "ok"),
+           ("a", "other.cfg", "ok"), ("q", "t.cfg", "ok")],
+}
+ISO_OFFSETS = {"offset0": 0, "first-buffer": 4000, "at-8191": 8191, "at-8192": 8192, "at-8193": 8193,
+               "second-buffer": 12000, "beyond-20000": 20500, "last-byte": -1}
+
+
+def iso_small(j):
+    return ("hostname iso-%d\nusername user%d password 0 Pw%dAlpha\nsnmp-server community Comm%dBeta RO\n"
+            " neighbor 10.9.%d.1 password Shared0Gamma\nend %d\n" % (j, j, j, j, j, j)).encode()
+
+
+def iso_big(j, offset, size=None):
+    """20-40 KB of valid configuration, distinct secrets in the first lines (and every 40 filler
+    blocks), with byte `offset` replaced by 0xff (never valid in UTF-8)."""
+    size = size or (22000 + 6000 * (j % 3))
+    parts = ["hostname big-%d\nusername big%da password 0 Big%dSecretA\nusername big%db password 0 Big%dSecretB\n"
+             "snmp-server community Big%dCommC RO\n neighbor 10.8.%d.1 password Big%dSecretD\n" % ((j,) * 8)]
+    n, total = 0, len(parts[0])
+    while total < size:
+        n += 1
+        p = "interface GigabitEthernet0/%d\n description plain filler line number %d of the big file\n no shutdown\n" % (n, n)
+        if n % 40 == 0:
+            p += "username fill%dx%d password 0 Fill%dPw%d\n" % (j, n, j, n)
+        parts.append(p)
+        total += len(p)
+    b = bytearray("".join(parts).encode())
+    b[offset if 0 <= offset < len(b) else len(b) - 1] = 0xFF
+    return bytes(b)
+
+
+def _walk_order(indir):
+    """The order in which a top-down os.walk lists the non-hidden files (coverage accounting and
+    the order-stability guard only; no verdict depends on it)."""
+    out = []
+    for dp, dns, fns in os.walk(indir):
+        out += [os.path.relpath(os.path.join(dp, f), indir) for f in fns if not f.startswith(".")]
+    return out
+
+
+def run_iso(job, fsroot, repo):
+    shape = ISO_SHAPES[job["shape"]]
+    offset = ISO_OFFSETS[job["offset_class"]]
+    root = os.path.join(fsroot, "w%d" % os.getpid())
+    rels = [os.path.normpath(os.path.join(d, n)) for d, n, _ in shape]
+    failing = {r for r, (_, _, role) in zip(rels, shape) if role == "fail"}
+    data = {r: (iso_big(j, offset) if r in failing else iso_small(j)) for j, r in enumerate(rels)}
+    results = []
+    for entry in job["entries"]:
+        runs = {}
+        for which in ("absent", "with"):
+            if os.path.exists(root):
+                shutil.rmtree(root)
+            os.makedirs(os.path.join(root, "in"))
+            _write(os.path.join(root, "beside.txt"), b"a bystander next to the input\n")
+            for r in rels:                       # same creation order in both runs
+                if which == "with" or r not in failing:
+                    _write(os.path.join(root, "in", r), data[r])
+            order = _walk_order(os.path.join(root, "in"))
+            snap0 = snapshot(root)
+            texts, raised = run_entry(entry, job["feat"], os.path.join(root, "in"), os.path.join(root, "out"), repo)
+            snap1 = snapshot(root)
+            shutil.rmtree(root, ignore_errors=True)
+            runs[which] = (snap0, snap1, texts, raised, order)
+        snap0, snap1, texts, raised, order = runs["with"]
+        a0, a1, atexts, araised, aorder = runs["absent"]
+        stable = [r for r in order if r not in failing] == aorder
+        report_texts = list(texts) + ([raised] if raised else [])
+        rep = {r: any(os.path.basename(r) in t for t in report_texts) for r in failing}
+        allfailed = all(rep.values())
+        special = set()
+        evs = {"with": [{"ev": "start"}], "absent": [{"ev": "start"}]}
+        for r in rels:
+            ip, sp = os.path.join("in", r), os.path.join("out", r)
+            special.update((ip, sp))
+            out_abs = a1.get(sp, "ABSENT")
+            if r not in failing:     # the run without the failing files is a run of its own
+                evs["absent"].append({"ev": "iso", "id": r, "fault": "none", "in0": a0.get(ip, "ABSENT"), "in1": a1.get(ip, "ABSENT"),
+                                      "pre": a0.get(sp, "ABSENT"), "out": out_abs, "absent": out_abs, "allfailed": True,
+                                      "ifproc": "NA", "reported": False})
+            evs["with"].append({"ev": "iso", "id": r, "fault": "decode" if r in failing else "none",
+                                "in0": snap0.get(ip, "ABSENT"), "in1": snap1.get(ip, "ABSENT"),
+                                "pre": snap0.get(sp, "ABSENT"), "out": snap1.get(sp, "ABSENT"), "absent": out_abs,
+                                "allfailed": allfailed, "ifproc": digest(data[r]), "reported": rep.get(r, False)})
+        for which, (s0, s1) in (("with", (snap0, snap1)), ("absent", (a0, a1))):
+            o0 = sorted((p, v) for p, v in s0.items() if v != "DIR" and p not in special)
+            o1 = sorted((p, v) for p, v in s1.items() if v != "DIR" and p not in special)
+            evs[which].append({"ev": "end", "others0": "O:" + hashlib.sha1(json.dumps(o0).encode()).hexdigest(),
+                               "others1": "O:" + hashlib.sha1(json.dumps(o1).encode()).hexdigest()})
+        firstfail = min(order.index(r) for r in failing)
+        lastfail = max(order.index(r) for r in failing)
+        pos = {r: ("before" if order.index(r) < firstfail else "after" if order.index(r) > lastfail else "between")
+               for r in rels if r not in failing}
+        changed = sum(1 for r in rels if r not in failing and
+                      snap1.get(os.path.join("out", r), "ABSENT") not in ("ABSENT", digest(data[r])))
+        results.append({"entry": entry, "stable_order": stable, "events": evs, "position": pos, "order": order,
+                        "info": {"raised": raised, "reports": [t[:160] for t in report_texts[:3]], "allfailed": allfailed,
+                                 "files_rewritten": changed,
+                                 "bad_byte_offsets": {r: data[r].index(b"\xff") for r in failing},
+                                 "sizes": {r: len(data[r]) for r in failing}}})
+    return {"kind": "iso", "gid": job["gid"], "results": results}
